@@ -470,14 +470,43 @@ Ltac decide_ifs_raw :=
 Ltac abstract_quotients :=
   repeat match goal with |- context [?x / ?y] => let t := fresh "quo" in set (t := x / y) in * end.
 Ltac restore_quotients := repeat match goal with t := _ / _ |- _ => subst t end.
-Ltac decide_ifs := abstract_quotients; decide_ifs_raw; restore_quotients.
+(* a branch contradicts a path fact about a ring-equal (not syntactically equal) pair of expressions, e.g.
+   `a + (b - a) * t` against `t * (b - a) + a`: link the two by an equation proved by `ring`, then lra *)
+Ltac link_contra H :=
+  lazymatch type of H with
+  | ?a < ?b =>
+      match goal with
+      | Hp : ?c <= ?d |- _ => assert (a - b = d - c) by ring; lra
+      | Hp : ?c < ?d |- _ => assert (a - b = d - c) by ring; lra
+      end
+  | ~ ?a < ?b => match goal with Hp : ?c < ?d |- _ => assert (a - b = c - d) by ring; lra end
+  | ?a <= ?b => match goal with Hp : ?c < ?d |- _ => assert (a - b = d - c) by ring; lra end
+  | ~ ?a <= ?b => match goal with Hp : ?c <= ?d |- _ => assert (a - b = c - d) by ring; lra end
+  | @eq R ?a ?b =>
+      match goal with Hp : ?c <> ?d |- _ =>
+        first [ assert (a - b = c - d) by ring | assert (a - b = d - c) by ring ]; apply Hp; lra end
+  | ?a <> ?b =>
+      match goal with Hp : @eq R ?c ?d |- _ =>
+        first [ assert (a - b = c - d) by ring | assert (a - b = d - c) by ring ]; apply H; lra end
+  end.
+Ltac path_contra2 H := exfalso; first [ lra | match goal with H' : _ <> _ |- _ => apply H'; lra end | link_contra H ].
+Ltac decide_ifs_raw2 :=
+  repeat match goal with
+  | |- context [Reqb ?a ?b] =>
+      let H := fresh "Hd" in destruct (Reqb_spec a b) as [H|H]; cbv beta iota in *; try path_contra2 H
+  | |- context [Rltb ?a ?b] =>
+      let H := fresh "Hd" in destruct (Rltb_spec a b) as [H|H]; cbv beta iota in *; try path_contra2 H
+  | |- context [Rleb ?a ?b] =>
+      let H := fresh "Hd" in destruct (Rleb_spec a b) as [H|H]; cbv beta iota in *; try path_contra2 H
+  end.
+Ltac decide_ifs := abstract_quotients; decide_ifs_raw2; restore_quotients.
 (* a non-zero side condition of `field` from a path fact about a ring-equal expression *)
 Ltac nonzero_from_path :=
   repeat split;
   first [ assumption | lra | match goal with H : _ <> _ |- _ <> _ => let E := fresh in intro E; apply H; lra end ].
 Ltac list_eq_field_path := list_eq ltac:(first [ reflexivity | ring | field; nonzero_from_path ]).
 (* model value list = traced value list *)
-Ltac same_values := first [ reflexivity | f_equal; list_eq_field_path ].
+Ltac same_values := first [ reflexivity | cbv beta iota delta [andb orb negb]; first [ reflexivity | f_equal; list_eq_field_path ] ].
 (* |x| with the sign of x known from the path facts *)
 Ltac abs_by_path :=
   repeat match goal with
